@@ -328,6 +328,64 @@ def run_conc(ctx, probes, ms, tag="conc"):
     return r
 
 
+VANISH_KEY = "peer-vanishes:no-return"
+
+
+def vanish_stage(ctx, tag="vanish"):
+    """Peer-vanishes-after-the-handshake stage (always; ~1.5 s): the harness re-executes itself in a throw-away network
+    namespace, a server accepts the probe and reads the greeting, then lo is brought DOWN so that nothing the probe sends
+    -- in particular the FIN of its final Close, which SO_LINGER makes close(2) wait for -- is ever acknowledged.  Scan
+    (dial 500 ms, data 300 ms) must return within dial + 3 x data + 2.5 s (the slack covers the ONE second of linger the
+    code asks for), once running into its read timeout and once cancelled 200 ms after the peer vanished."""
+    ok, out = ctx.harness_run("c09", ["-out", "%s.jsonl" % tag, "-vanish"], timeout=120)
+    if not ok:
+        return None
+    return ctx.read_jsonl(os.path.join(ctx.work, "%s.jsonl" % tag))
+
+
+def judge_vanish(rows):
+    late = [r for r in rows or [] if not r.get("unavailable") and not r["returned"]]
+    if late:
+        r = late[0]
+        return ("a probe whose peer vanishes right after the handshake (connection established, greeting read, then the link "
+                "goes down%s) has not returned %.1f s after it was started -- connect timeout %d ms, data timeout %d ms, "
+                "bound %d ms + %d ms slack for the one second of SO_LINGER" % (
+                    "" if r["cancel_after_link_down_ms"] < 0 else "; scan cancelled %d ms later" % r["cancel_after_link_down_ms"],
+                    r["dur_ms"] / 1000, r["tdial"], r["tdata"], r["tdial"] + 3 * r["tdata"], r["slack_ms"]))
+    return None
+
+
+def run_vanish(ctx):
+    rows = vanish_stage(ctx)
+    if rows is None:
+        return
+    na = [r["unavailable"] for r in rows if r.get("unavailable")]
+    if na:
+        ctx.skipped.append("peer-vanishes stage unavailable: %s" % na[0][:200])
+        return
+    why = judge_vanish(rows)
+    if why:   # confirm by repeating once (a starved machine could delay a return by seconds, not twice by minutes)
+        again = vanish_stage(ctx, "vanish_again")
+        why2 = judge_vanish(again) if again and not any(r.get("unavailable") for r in again) else None
+        if why2:
+            rows, why = again, why2
+        else:
+            why = None
+    for r in rows:
+        ctx.count("peer-vanishes", ("peer-vanishes", r["sub"]), nontrivial=True,
+                  sample={"class": "peer-vanishes", "sub": r["sub"], "returned": r["returned"], "dur_ms": r["dur_ms"],
+                          "err": r["err"][:80]})
+    if why and not any(f["key"] == VANISH_KEY for f in ctx.findings):
+        path = ctx.write_replay("peer-vanishes", {
+            "property": "C09", "what": why,
+            "input": {"vanish": True, "tdial_ms": rows[0]["tdial"], "tdata_ms": rows[0]["tdata"],
+                      "peer": "loopback listener in a fresh network namespace: accept, read the 3-byte greeting, then `lo` is "
+                              "set DOWN (the peer's kernel no longer acknowledges anything, e.g. the probe's FIN)",
+                      "sub-cases": "read-timeout (no cancellation), cancelled (context cancelled 200 ms after the link went down)"},
+            "observed": rows, "replay_cmd": "bin/check C09 --replay <this file>"})
+        ctx.findings.append({"key": VANISH_KEY, "what": why, "replay": path})
+
+
 RACE_KEY = "cancel-race:late-return"
 
 
@@ -567,6 +625,7 @@ def run(ctx):
         ok, _ = ctx.harness_run("c09", args, timeout=3000)
         if ok:
             rows = corpus_rows(ctx) + ctx.read_jsonl(os.path.join(ctx.work, "cases.jsonl"))
+        run_vanish(ctx)
         # many workers, one Scanner (always; ~1.5 s in quick)
         run_conc(ctx, 30000 if quick else 400000, 2500 if quick else 25000)
         if not quick:
@@ -647,6 +706,13 @@ def replay(ctx, path):
         return 1
     if not ctx.harness_build("c09"):
         return 1
+    if r["input"].get("vanish"):
+        rows = vanish_stage(ctx, "vanish_replay") or []
+        why = judge_vanish(rows)
+        print("replay peer-vanishes stage: %s -> %s" % (
+            [(x.get("sub"), "returned after %.0f ms" % x["dur_ms"] if x.get("returned") else "NOT returned after %.0f ms" % x.get("dur_ms", 0),
+              x.get("err", "")[:60], x.get("unavailable", "")) for x in rows], why or "property holds on this input"))
+        return 1 if why else 0
     if r["input"].get("concurrent"):
         for k in range(2):
             row = conc_stage(ctx, r["input"].get("probes", 30000) * (1 + 4 * k), 5000 * (1 + 2 * k), "conc_replay%d" % k,
